@@ -49,7 +49,10 @@ def Native(name, **kw):
 
 class Prop:
     def __init__(self, pid, modules, tasks, bounded=(), assumptions=(), trusted_base=(), level='proof',
-                 explanation=''):
+                 explanation='', dep_tags=()):
+        # clauses tagged with another property that this property's argument depends on (callee contracts):
+        # a refuted one breaks this property as well
+        self.dep_tags = set(dep_tags)
         self.id = pid
         self.modules = list(modules)
         self.tasks: List[Task] = [t for group in tasks for t in group]
@@ -322,8 +325,8 @@ def run_property(prop: Prop, tier='quick', seed=0, jobs=None) -> int:
             if okey in seen_ob and ob['kind'] == 'inv':
                 continue
             seen_ob.add(okey)
-            mine = ob['tag'] == pid
-            if ob['kind'] in ('inv', 'pre') or ob['tag'] in (pid, 'aux'):
+            mine = ob['tag'] == pid or ob['tag'] in prop.dep_tags
+            if ob['kind'] in ('inv', 'pre') or ob['tag'] in (pid, 'aux') or mine:
                 n_ob += 1
             else:
                 continue     # clause belonging to another property: counted there
